@@ -4,7 +4,7 @@ from ..engines import abc
 
 PROP = "C17"
 BUDGET = {"quick": 400, "thorough": 8000}
-ALARM_S = 1800
+ALARM_S = 900
 RULE = ("small inference problems on catalogue models (1-2 inferred parameters plus optionally an initial state, optionally "
         "with the population-size constraint), N in 20..60, G in 1..4, tolerance list or quantile q, M in {None, N-1, smaller}, "
         "priors uniform (deliberately narrow) / gamma / normal, log-scale flags, parameter list in any order; histories get, "
